@@ -1173,11 +1173,11 @@ class ShardedPipelines(_CHarness):
 
   def __init__(self, W=1, S=1, total=4, batch=2, ibs=1, fuse=True, menu=(),
                retry=None, agg=True, timeout=60, mode='preempt', push=True,
-               slow=0, pause=False, sliced=False):
+               slow=0, pause=False, sliced=False, shuffle=False):
     self.params = dict(W=W, S=S, total=total, batch=batch, ibs=ibs, fuse=fuse,
                        menu=list(menu), retry=retry, agg=agg, timeout=timeout,
                        mode=mode, push=push, slow=slow, pause=pause,
-                       sliced=sliced)
+                       sliced=sliced, shuffle=shuffle)
     if pause:
       # the orchestrating loop may be arbitrarily slow at any one of its lines
       self.pause_focus = ('iterate', 'sharded_pipelines_as_iterator',
@@ -1211,6 +1211,7 @@ class ShardedPipelines(_CHarness):
                                'init_generator': per_call}
       if fake_courier.KILL_OTHER in p['menu']:
         fake_courier.NET.menu['*'] = [fake_courier.KILL_OTHER]
+      cenv._VRandom.choice_points = bool(p.get('shuffle'))
       rq = vqueue.SimpleQueue() if p['agg'] else None
       kw = {}
       if p['retry'] is not None:
@@ -1372,10 +1373,11 @@ class Interleaved(_CHarness):
   max_clock = 2500.0
 
   def __init__(self, total=4, batch=2, fuse=True, pool=False, W=1, buf=0,
-               nworkers=None, mode='preempt', pause=False, menu=()):
+               nworkers=None, mode='preempt', pause=False, menu=(),
+               shuffle=False):
     self.params = dict(total=total, batch=batch, fuse=fuse, pool=pool, W=W,
                        buf=buf, nworkers=nworkers, mode=mode, pause=pause,
-                       menu=list(menu))
+                       menu=list(menu), shuffle=shuffle)
     if pause:
       self.pause_focus = ('iterate_with_worker_pool', 'iterate_in_process',
                           'wait', 'wait_and_maybe_raise')
@@ -1403,6 +1405,7 @@ class Interleaved(_CHarness):
                                      num_threads=0)
       if p['menu']:
         fake_courier.NET.menu = {'maybe_make': list(p['menu'])}
+      cenv._VRandom.choice_points = bool(p.get('shuffle'))
       res = {'datasource': m.orchestrate.RunnerResource(buffer_size=p['buf'])}
       if pool is not None:
         kw = {}
